@@ -694,6 +694,7 @@ pub(crate) fn align_to_up8_to4() {
 }
 
 inst!(deallocate_up1, ob_deallocate, LogAlloc, SUp1, 2, 64);
+inst!(deallocate_up8, ob_deallocate, LogAlloc, SUp8, 2, 64);
 inst!(deallocate_dn8, ob_deallocate, LogAlloc<u64>, SDn8, 2, 64);
 inst!(deallocate_up4_nodealloc, ob_deallocate, LogAlloc, SUp4NoDe, 1, 128);
 
